@@ -205,3 +205,58 @@ Print Assumptions C15_resolve_errors_located.
 Print Assumptions C15_resolve_error_spans.
 Print Assumptions C15_first_error_is_first.
 Print Assumptions C15_reported_error_is_first.
+
+(* ---- type errors (the model of typechecker.rs: coq/Types/Tc.v; proofs: coq/Types/ErrLoc.v) ------------------- *)
+From Sylt Require Types.TyGraph Types.Tc Types.ErrLoc.
+
+(* type_errors_located.  Every error the type checker returns (the first one and the further ones of a
+   `fail_many`: missing / unknown fields of a blob instantiation) carries a span that occurs in the resolved program:
+   ErrLoc.spans_of lists the spans of all statements, expressions, type annotations, parameters, field / variant
+   declarations and case patterns, and the definition spans of the variables.  Some of these spans reach the error
+   through the type graph (the declaration span of a blob / enum for a wrong type argument, the span of a field for a
+   field constraint): ErrLoc.gspans is the invariant that every span stored in the graph is a span of the program.
+   The only exception is "no start function", reported at Span::zero(0) as by the resolver. *)
+Theorem C15_type_errors_located : forall fuel r e more,
+  Sylt.Types.Tc.typecheck fuel r = Sylt.Types.TyGraph.Err e more ->
+  Forall (fun x => In (Sylt.Types.TyGraph.e_span x) (Sylt.Types.ErrLoc.spans_of r) \/
+                   (Sylt.Types.TyGraph.e_kind x = Sylt.Types.TyGraph.KExotic /\
+                    Sylt.Types.TyGraph.e_span x = Sylt.Syntax.Resolved.span_zero 0)) (e :: more).
+Proof. exact Sylt.Types.ErrLoc.typecheck_errors_located. Qed.
+
+(* type_first_error_is_first.  The top level is checked statement by statement, in the order name resolution and
+   dependency ordering left them in: if the statements l1 check (state s1) and the next statement fails, the type
+   checker returns exactly that error, whatever follows; conversely a returned error is the error of some statement
+   all of whose predecessors checked, or comes from the check of `start` after all statements checked. *)
+Theorem C15_type_first_error_is_first : forall fuel vars l1 st l2 u s1 e more,
+  let kinds := Sylt.Types.Tc.kinds_of vars 1 (FMapPositive.PositiveMap.empty Sylt.Syntax.Resolved.varkind) in
+  let outer := fun s => Sylt.Types.Tc.outer_statement kinds (Sylt.Types.Tc.gfix fuel)
+                          (Sylt.Types.Tc.afix kinds (Sylt.Types.Tc.gfix fuel) fuel) s Sylt.Types.Tc.ctx_new in
+  Sylt.Types.TyGraph.bind (Sylt.Types.TyGraph.init_vars (length vars)) (fun _ => Sylt.Types.TyGraph.iterM outer l1)
+    Sylt.Types.TyGraph.empty_st = Sylt.Types.TyGraph.Ok (u, s1) ->
+  outer st s1 = Sylt.Types.TyGraph.Err e more ->
+  Sylt.Types.Tc.typecheck fuel (Sylt.Syntax.Resolved.mkResolved vars (l1 ++ st :: l2)) = Sylt.Types.TyGraph.Err e more.
+Proof. exact Sylt.Types.ErrLoc.typecheck_first_error. Qed.
+
+Theorem C15_type_reported_error_is_first : forall fuel vars stmts e more,
+  let kinds := Sylt.Types.Tc.kinds_of vars 1 (FMapPositive.PositiveMap.empty Sylt.Syntax.Resolved.varkind) in
+  let outer := fun s => Sylt.Types.Tc.outer_statement kinds (Sylt.Types.Tc.gfix fuel)
+                          (Sylt.Types.Tc.afix kinds (Sylt.Types.Tc.gfix fuel) fuel) s Sylt.Types.Tc.ctx_new in
+  Sylt.Types.Tc.typecheck fuel (Sylt.Syntax.Resolved.mkResolved vars stmts) = Sylt.Types.TyGraph.Err e more ->
+  (exists l1 st l2 u s1, stmts = l1 ++ st :: l2 /\
+      Sylt.Types.TyGraph.bind (Sylt.Types.TyGraph.init_vars (length vars)) (fun _ => Sylt.Types.TyGraph.iterM outer l1)
+        Sylt.Types.TyGraph.empty_st = Sylt.Types.TyGraph.Ok (u, s1) /\
+      outer st s1 = Sylt.Types.TyGraph.Err e more) \/
+  (exists u s1, Sylt.Types.TyGraph.bind (Sylt.Types.TyGraph.init_vars (length vars))
+                  (fun _ => Sylt.Types.TyGraph.iterM outer stmts) Sylt.Types.TyGraph.empty_st = Sylt.Types.TyGraph.Ok (u, s1)).
+Proof. exact Sylt.Types.ErrLoc.typecheck_error_is_first. Qed.
+
+(* the same inside a block (fn expression_block folds over the statements of a function / branch / loop body) *)
+Theorem C15_type_block_first_error : forall {A B} (f : B -> A -> Sylt.Types.TyGraph.M B) l1 x l2 b s b1 s1 e more,
+  Sylt.Types.TyGraph.foldM f l1 b s = Sylt.Types.TyGraph.Ok (b1, s1) -> f b1 x s1 = Sylt.Types.TyGraph.Err e more ->
+  Sylt.Types.TyGraph.foldM f (l1 ++ x :: l2) b s = Sylt.Types.TyGraph.Err e more.
+Proof. intros A B. exact (@Sylt.Types.ErrLoc.foldM_first_error A B). Qed.
+
+Print Assumptions C15_type_errors_located.
+Print Assumptions C15_type_first_error_is_first.
+Print Assumptions C15_type_reported_error_is_first.
+Print Assumptions C15_type_block_first_error.
